@@ -31,6 +31,7 @@ func runC03(c *Ctx, r *Report) {
 	c03Wrappers(c, r, "C03.R10")
 	c03Write(c, r, "C03.R11")
 	c03HalfCloser(c, r, "C03.R14")
+	c03TeeBranch(c, r, "C03.R15")
 	c11PeerKey(c, r, "C03.R13") // each upstream of the group is its own backend: two dial addresses never collapse into one peer
 	c05R23(c, r, "C03.R12")     // the relay runs without the matching deadline: a deadline left armed on the client socket cuts the client->upstream direction when it passes
 	c09R7(c, r, "C03.R9")       // UDP downstream: a datagram that exactly fills the read buffer must not produce a spurious end of stream
@@ -39,7 +40,7 @@ func runC03(c *Ctx, r *Report) {
 
 func c03Proxy(c *Ctx, r *Report) {
 	r.rule("C03.R1", "fan-out completeness of proxy() for 2 upstreams: tee chain down->up0->up1, one copy-back io.Copy(down, up_i) per upstream, the pump copies from the last tee", 1)
-	r.rule("C03.R2", "half-close propagation: after the pump every upstream gets CloseWrite or Close (both arms explored); after wg.Wait the downstream gets CloseWrite when it supports it", 1)
+	r.rule("C03.R2", "half-close propagation, evaluated with TCP, UDP, unix stream and unix datagram connections: after the pump every upstream gets CloseWrite if it is a stream that offers it (also a *net.UnixConn, which is a packet connection as well) and Close otherwise (also a unixgram socket, whose CloseWrite ends nothing); after wg.Wait the downstream gets CloseWrite when it supports it", 1)
 	r.rule("C03.R3", "join: wg.Add(1) before each go and deferred wg.Done in it; wg.Wait and the receive of the pump's signal precede return; the signal cannot block ahead of the half-close", 1)
 	fnName := "modules/l4proxy.(*Handler).proxy"
 	fn := c.Fn(fnName)
@@ -55,13 +56,32 @@ func c03Proxy(c *Ctx, r *Report) {
 	}
 	var paths []Path
 	pathCaps := map[int][3]bool{}
-	for _, caps := range [][3]bool{{true, true, true}, {false, false, false}, {true, false, true}, {false, true, false}} {
+	// ... and so can *net.UnixConn (an upstream dialed as unix/...), which - unlike the TCP connection - also has the
+	// methods of a packet connection: what decides is CloseWrite, not what else the type offers
+	unixT := netType(c, "UnixConn")
+	if unixT == nil {
+		r.bad("C03.R1", fnName, "evaluation", c.pos(fn.Pos()), "net.UnixConn type not found")
+		return
+	}
+	// ... but not if it is a datagram socket (unixgram/...): it has CloseWrite like every *net.UnixConn, yet shutting
+	// down its writing side ends nothing - the relay must close it like a UDP socket or the handler never returns
+	for si, caps := range [][3]bool{{true, true, true}, {false, false, false}, {true, false, true}, {false, true, false}, {true, true, true}, {true, false, false}} {
+		capT, incapT, incapNet := tcpT, udpT, "udp"
+		if si >= 4 {
+			capT = unixT
+		}
+		if si == 5 {
+			incapT, incapNet = unixT, "unixgram"
+		}
+		networks := map[string]string{}
 		kind := func(desc string, capable bool) SV {
 			v := symRef(desc, false)
 			if capable {
-				v.DynT, v.Dyn = tcpT, typeStr(tcpT)
+				v.DynT, v.Dyn = capT, typeStr(capT)
+				networks[desc] = map[bool]string{true: "unix", false: "tcp"}[capT == unixT]
 			} else {
-				v.DynT, v.Dyn = udpT, typeStr(udpT)
+				v.DynT, v.Dyn = incapT, typeStr(incapT)
+				networks[desc] = incapNet
 			}
 			return v
 		}
@@ -79,6 +99,18 @@ func c03Proxy(c *Ctx, r *Report) {
 			},
 		}
 		c03ProxyCalls(sc)
+		base := sc.Call
+		sc.Call = func(callee string, args []SV, ev *symEval, st *symState) (SV, bool) {
+			switch {
+			case (strings.HasSuffix(callee, ".RemoteAddr") || strings.HasSuffix(callee, ".LocalAddr")) && len(args) == 1:
+				if _, ok := networks[args[0].Desc]; ok {
+					return symRef("addr:"+args[0].Desc, false), true
+				}
+			case strings.HasSuffix(callee, ".Network") && len(args) == 1 && strings.HasPrefix(args[0].Desc, "addr:"):
+				return symStr(networks[strings.TrimPrefix(args[0].Desc, "addr:")]), true
+			}
+			return base(callee, args, ev, st)
+		}
 		ps, err := evalPaths(fn, sc)
 		if err != nil || len(ps) == 0 {
 			r.bad("C03.R1", fnName, "evaluation", c.pos(fn.Pos()), fmt.Sprintf("undecided: %v", err))
